@@ -1,5 +1,6 @@
 (* What the SOURCE says about the relational operators of basic_fitness_t,
-   dominating() and model_measurements::operator>=, as data.
+   dominating(), model_measurements::operator>= and (round 4) the element-wise
+   arithmetic, the lifts, distance, combine and the scalar round_to, as data.
 
    translate/fitness_ops.py reads fitness.tcc / model_measurements.h on every
    check run and writes coq/Gen/FitnessOps.v: one [rexpr] per relational
@@ -17,10 +18,43 @@ Import ListNotations.
 
 Inductive side := Lhs | Rhs.
 
-(* a test on two doubles (x, y) *)
-Inductive ecmp := CLt | CLe | CGt | CGe | CEq | CNe | CAlmost | CTrue | CNot (c : ecmp).
+(* ---- per-element expressions: what a loop / transform applies to the
+   element(s) at one index.  [EL] is the element of the left (or only) vector
+   -- for the scalar round_to of utility.h, its argument --, [ER] the element
+   of the right vector, [EScalar] the scalar parameter of the function;
+   constants are binary64 bit patterns.  A call of the scalar round_to is
+   [ECall FRoundTo _] and means the model's [round_to_scalar], which the
+   regenerated [round_to_scalar_def] is separately proved to equal. *)
+Inductive ebin := BAdd | BSub | BMul | BDiv.
+Inductive efun := FAbs | FSqrt | FRound | FRoundTo.
+Inductive eexpr :=
+  | EL | ER | EScalar
+  | EConst (bits : Z)
+  | ENeg (a : eexpr)
+  | EBin (o : ebin) (a b : eexpr)
+  | ECall (f : efun) (a : eexpr).
 
-Fixpoint test (c : ecmp) (x y : f64) : bool :=
+Definition ebin_eval (o : ebin) : f64 -> f64 -> f64 :=
+  match o with BAdd => F64.add | BSub => F64.sub | BMul => F64.mul | BDiv => F64.div end.
+Definition efun_eval (f : efun) : f64 -> f64 :=
+  match f with FAbs => F64.abs | FSqrt => F64.sqrt | FRound => F64.round_half_away | FRoundTo => round_to_scalar end.
+
+Fixpoint eeval (e : eexpr) (l r s : f64) : f64 :=
+  match e with
+  | EL => l | ER => r | EScalar => s
+  | EConst bits => F64.of_bits bits
+  | ENeg a => F64.neg (eeval a l r s)
+  | EBin o a b => ebin_eval o (eeval a l r s) (eeval b l r s)
+  | ECall f a => efun_eval f (eeval a l r s)
+  end.
+
+(* a test on two doubles (x, y); [s] is the scalar parameter of the enclosing
+   function (the tolerance of almost_equal) *)
+Inductive ecmp := CLt | CLe | CGt | CGe | CEq | CNe | CAlmost | CTrue | CNot (c : ecmp)
+  | CAlmostE (e : eexpr)               (* almost_equal(x, y, e) *)
+  | COn (e1 e2 : eexpr) (c : ecmp).    (* c applied to (e1(x, y), e2(x, y)) *)
+
+Fixpoint test_s (s : f64) (c : ecmp) (x y : f64) : bool :=
   match c with
   | CLt => F64.ltb x y
   | CLe => F64.leb x y
@@ -30,8 +64,11 @@ Fixpoint test (c : ecmp) (x y : f64) : bool :=
   | CNe => F64.neb x y
   | CAlmost => almost_equal x y default_ae_epsilon
   | CTrue => true
-  | CNot c' => negb (test c' x y)
+  | CNot c' => negb (test_s s c' x y)
+  | CAlmostE e => almost_equal x y (eeval e x y s)
+  | COn e1 e2 c' => test_s s c' (eeval e1 x y s) (eeval e2 x y s)
   end.
+Definition test (c : ecmp) (x y : f64) : bool := test_s F64.zero c x y.
 
 Inductive relop := OpLt | OpEq | OpGt | OpGe | OpLe | OpNe.
 
@@ -169,3 +206,78 @@ Fixpoint reval (fuel : nat) (defs : relop -> rexpr) (dom : dom_def) {struct fuel
   | RIte c t e' => obind (go c a b acca accb)
                          (fun v => if v then go t a b acca accb else go e' a b acca accb)
   end.
+
+(* ---- the arithmetic: which loop over which per-element expression *)
+Inductive vop :=
+  | VIndexLoop (e : eexpr)     (* n = size(); for (i < n) self[i] = e(self[i], f[i]);  (Expects on both subscripts) *)
+  | VRangeFor (e : eexpr)      (* for (auto &f_i : f) f_i = e(f_i, -, v); *)
+  | VInner (eq_sizes : bool) (init : Z) (acc : ebin) (e : eexpr)
+                               (* [Expects(equal sizes);] std::inner_product(a, b, init, acc, e) *)
+  | VConcat (order : list side).   (* ret.insert(end(ret), x...) for x in order *)
+
+Definition veval_binary (v : vop) (a b : vec) : option vec :=
+  match v with
+  | VIndexLoop e => compound (fun x y => eeval e x y F64.zero) a b
+  | _ => None
+  end.
+
+Definition veval_unary (v : vop) (f : vec) (s : f64) : option vec :=
+  match v with
+  | VRangeFor e => Some (map (fun x => eeval e x F64.zero s) f)
+  | _ => None
+  end.
+
+Fixpoint inner_product_with (acc g : f64 -> f64 -> f64) (a b : vec) (init : f64) : option f64 :=
+  match a with
+  | [] => Some init
+  | x :: a' =>
+      match b with
+      | [] => None
+      | y :: b' => inner_product_with acc g a' b' (acc init (g x y))
+      end
+  end.
+
+Definition veval_inner (v : vop) (a b : vec) : option f64 :=
+  match v with
+  | VInner eqs init acc e =>
+      if negb eqs || Nat.eqb (length a) (length b)
+      then inner_product_with (ebin_eval acc) (fun x y => eeval e x y F64.zero) a b (F64.of_bits init)
+      else None
+  | _ => None
+  end.
+
+Definition veval_concat (v : vop) (a b : vec) : option vec :=
+  match v with
+  | VConcat order => Some (fold_left (fun ret x => ret ++ pick x a b) order [])
+  | _ => None
+  end.
+
+(* ---- the lifts of scalar predicates: std::all_of / std::any_of *)
+Inductive epred := PIsFinite | PIsNan | PIsSmall | PIsNonneg | PNot (p : epred).
+Fixpoint peval (p : epred) (x : f64) : bool :=
+  match p with
+  | PIsFinite => F64.is_finite x
+  | PIsNan => F64.is_nan x
+  | PIsSmall => issmall x
+  | PIsNonneg => isnonnegative x
+  | PNot p' => negb (peval p' x)
+  end.
+Inductive quant := QAll | QAny.
+Record lift_def := { l_quant : quant; l_pred : epred }.
+Definition lift_eval (d : lift_def) (f : vec) : bool :=
+  match l_quant d with QAll => forallb (peval (l_pred d)) f | QAny => existsb (peval (l_pred d)) f end.
+
+(* [Expects(equal sizes);] for (i < n) if (!test(a[i], b[i])) return false; return true; *)
+Record pair_lift := { pl_eq_sizes : bool; pl_test : ecmp }.
+Fixpoint all_pairs (t : f64 -> f64 -> bool) (a b : vec) : option bool :=
+  match a with
+  | [] => Some true
+  | x :: a' =>
+      match b with
+      | [] => None
+      | y :: b' => if t x y then all_pairs t a' b' else Some false
+      end
+  end.
+Definition pair_lift_eval (d : pair_lift) (a b : vec) (s : f64) : option bool :=
+  if negb (pl_eq_sizes d) || Nat.eqb (length a) (length b)
+  then all_pairs (test_s s (pl_test d)) a b else None.
